@@ -153,6 +153,37 @@ pub fn gen_c01(out: &mut dyn Write, thorough: bool, seed: u64) {
             writeln!(out, "H {CFG} {mt}^00 {pre},pred:0,obs:SB,spec:0 c01").unwrap();
         }
     }
+    // heavy weights: every weight is a legal 16-bit value, sums at one boundary leave the 16-bit range by far (overlapping
+    // n-grams of one kind, all windows incl. the cached type scorer)
+    for i in 0..(if thorough { 120 } else { 24 }) {
+        let w = 1 + (i % 4) as u8;
+        let big = [32767, 20000, -32767, -20000, 15000][i % 5];
+        let mut m = AbsModel { char_w: w, type_w: w, bias: if i % 2 == 0 { 32767 } else { -3 }, ..Default::default() };
+        let n1 = 2 * w as usize;
+        match i % 3 {
+            0 => {
+                m.type_ngrams.push((vec![3], vec![big; n1]));
+                if w >= 1 {
+                    m.type_ngrams.push((vec![3, 3], vec![big / 2 + 1; n1 - 1]));
+                }
+                m.type_ngrams.push((vec![5], vec![-big; n1]));
+            }
+            1 => {
+                m.char_ngrams.push(("あ".into(), vec![big; n1]));
+                m.char_ngrams.push(("ああ".into(), vec![big; n1 - 1]));
+                m.dict.push(("ああ".into(), vec![big, big, big], String::new()));
+            }
+            _ => {
+                m.type_ngrams.push((vec![3], vec![big; n1]));
+                m.char_ngrams.push(("あ".into(), vec![-big; n1]));
+                m.dict.push(("あ".into(), vec![big, -big], String::new()));
+            }
+        }
+        let mt = m.to_text();
+        for t in ["ああ", "あああああ", "漢あああ漢", "あア", "東京都ああああああああ"] {
+            writeln!(out, "H {CFG} {mt}^00 Fraw:{},pred:0,obs:SB,spec:0 c01", hexs(t)).unwrap();
+        }
+    }
     // long texts (hundreds of characters): buffer growth, positions beyond 255, many matches
     let lopts = GenOpts { windows: &[1, 2, 3, 4, 9], max_ngrams: 6, max_words: 3, max_word_len: 6 };
     for i in 0..(if thorough { 40 } else { 4 }) {
@@ -213,6 +244,23 @@ pub fn gen_c06(out: &mut dyn Write, thorough: bool, seed: u64) {
                 }
             }
             writeln!(out, "H {CFG} {mt}^1{store} {ops},fill,obs:BKGIC,tspec:0 c06").unwrap();
+        }
+        // one category with very many candidates (more than any one-byte index can address), the best one late
+        if r.chance(1, 50) && !m.tag_models.is_empty() {
+            let mut mm = m.clone();
+            let n_c = *r.pick(&[255usize, 256, 257, 300]);
+            {
+                let tm = &mut mm.tag_models[0];
+                let old_total: usize = tm.tags.iter().map(|c| if c.len() >= 2 { c.len() } else { 0 }).sum();
+                tm.tags.push((0..n_c).map(|j| format!("R{j:03}")).collect());
+                let hot = n_c - 1 - r.below(3);
+                tm.bias.extend((0..n_c).map(|j| if j == hot { 9 } else { (j % 7) as i32 - 3 }));
+                let _ = old_total;
+                // existing n-gram weight vectors keep their length: they simply do not reach the new classes
+            }
+            let token = mm.tag_models[0].token.clone();
+            let text = format!("{}{}{}", alpha[0], token, alpha[alpha.len() - 1]);
+            writeln!(out, "H {CFG} {}^1{store} Fraw:{},pred:0,setb:0:W,fill,obs:BKGIC,tspec:0 c06", mm.to_text(), hexs(&text)).unwrap();
         }
         // a long text (positions beyond 255, many tokens)
         if r.chance(1, 60) {
@@ -297,6 +345,21 @@ pub fn gen_c08(out: &mut dyn Write, thorough: bool, seed: u64) {
                 ops.push("fill".into());
                 ops.push("obs".into());
                 writeln!(out, "H {CFG} {} {} c08", specs.join("!"), ops.join(",")).unwrap();
+            }
+        }
+        // long texts on one sentence object: a long text, then a variant of it (one character replaced, so that positions that
+        // had a match have none), tagged — lengths around the word sizes of bitmaps and blocks
+        if group_no < (if thorough { 40 } else { 8 }) {
+            for &len in &[33usize, 40, 65, 70, 129, 257] {
+                let mut long1 = String::new();
+                while long1.chars().count() < len {
+                    long1.push_str(&gen_text_tags(&mut r, &m1, &alpha, 14));
+                }
+                let long1: String = long1.chars().take(len).collect();
+                let at = r.range(1, len as i64 - 1) as usize;
+                let long2: String = long1.chars().enumerate().map(|(i, c)| if i == at || i == (at ^ 32) % len { '〓' } else { c }).collect();
+                let k = *r.pick(&[0usize, 2, 4]);
+                writeln!(out, "H {CFG} {} raw:{},pred:{k},fill,raw:{},pred:{k},fill,obs c08", specs.join("!"), hexs(&long1), hexs(&long2)).unwrap();
             }
         }
         for _ in 0..per_group {
